@@ -80,6 +80,24 @@ Proof.
   apply frame_bind; [apply frame_cbd|]. intros _.
   apply frame_bind; [apply frame_cbd|]. intros _. apply frame_ret.
 Qed.
+Lemma frame_unwind_val v : frame (unwind_val E v).
+Proof.
+  unfold unwind_val. apply frame_bind; [apply frame_emit|]. intros _.
+  apply frame_bind; [apply frame_cbd|]. intros _. apply frame_ret.
+Qed.
+Lemma frame_unwind_args k v : frame (unwind_args E k v).
+Proof.
+  unfold unwind_args. apply frame_bind; [apply frame_emit|]. intros _.
+  apply frame_bind; [apply frame_cbd|]. intros _.
+  apply frame_bind; [apply frame_cbd|]. intros _. apply frame_ret.
+Qed.
+Lemma frame_drop_args k v : frame (drop_args E k v).
+Proof.
+  unfold drop_args. apply frame_bind; [apply frame_emit|]. intros _.
+  apply frame_bind; [apply frame_cbd|]. intros bv.
+  apply frame_bind; [apply frame_cbd|]. intros bk.
+  destruct (bv || bk); intros w; [apply wp_panic | apply wp_ret]; reflexivity.
+Qed.
 Lemma frame_unwind_pairs l : frame (unwind_pairs E l).
 Proof.
   induction l as [|p t IH]; cbn [unwind_pairs]; [apply frame_ret|].
@@ -364,7 +382,7 @@ Qed.
 Lemma keeps_insert_ii k v u : keeps (insert_ii E debug k v u).
 Proof.
   intros w Hw. unfold insert_ii. apply wp_bind.
-  apply wp_on_unwind_frame; [apply frame_unwind_pair|].
+  apply wp_on_unwind_frame; [apply frame_unwind_args|].
   eapply wp_mono; [apply scan_spec; [intros; apply frame_test_k | exact Hw] | |]; cbn beta.
   - intros [i|] w' [Hs Hi].
     + destruct (WF_live _ _ Hw Hi) as [p Hp].
@@ -377,7 +395,7 @@ Proof.
         apply wp_ret. unfold inv_post. simp_w. rewrite Hs.
         split; [apply WF_set_slot_some; auto | apply cap_set_slot].
     + apply wp_bind. apply wp_get_len. apply wp_bind. apply wp_get_cap.
-      apply wp_bind. apply wp_on_unwind_frame; [apply frame_unwind_pair|].
+      apply wp_bind. apply wp_on_unwind_frame; [apply frame_unwind_args|].
       apply wp_bind. apply wp_dbg_assert.
       * intros _. apply wp_check_index.
         -- intros Hc. apply wp_bind. apply wp_p_write_checked.
